@@ -285,7 +285,11 @@ def probe_perturb():
         return np.empty(n, dtype=np.uint8)
 
     b = f(4096)
-    return {"numpy_empty_byte": np_dirty, "nrt_empty_byte": int(b[100]), "MALLOC_PERTURB_": os.environ.get("MALLOC_PERTURB_"), "NUMBA_BOUNDSCHECK": os.environ.get("NUMBA_BOUNDSCHECK")}
+    for _ in range(20):  # warm the small-block free lists, then look at a recycled small block
+        c = f(24)
+        del c
+    small = f(24)
+    return {"numpy_empty_byte": np_dirty, "nrt_empty_byte": int(b[100]), "nrt_small_block_bytes": [int(x) for x in small[:4]], "GLIBC_TUNABLES": os.environ.get("GLIBC_TUNABLES"), "MALLOC_PERTURB_": os.environ.get("MALLOC_PERTURB_"), "NUMBA_BOUNDSCHECK": os.environ.get("NUMBA_BOUNDSCHECK")}
 
 
 def run_group(seed, group_names, budget_s, nb_cap, max_calls, out_path, repo):
